@@ -72,6 +72,19 @@ pub struct BkSpec {
 pub struct Shared {
     pub log: Mutex<Vec<String>>,
     pub ans: Mutex<String>,
+    /// schedule control for `X` steps: the thread marked GATED parks in the backend's `destroy()`
+    pub gate: Mutex<Option<(std::sync::mpsc::SyncSender<()>, std::sync::mpsc::Receiver<()>)>>,
+}
+
+thread_local! {
+    static GATED: std::cell::Cell<bool> = const { std::cell::Cell::new(false) };
+}
+
+/// the raw outcome of the two halves of an `X` step (umount on one thread, parked in the
+/// backend's destroy(); mount on another), waiting to be booked by the ordinary `u` / `m` steps
+pub struct Stash {
+    pub umount: Option<(Option<u64>, Result<(u64, u64), String>, Vec<String>)>,
+    pub mount: Option<(Result<u8, String>, Vec<String>)>,
 }
 
 pub struct Bk {
@@ -175,6 +188,13 @@ impl FileSystem for Bk {
     }
     fn destroy(&self) {
         self.sh.log.lock().unwrap().push(format!("{}.destroy", self.spec.id));
+        if GATED.with(|g| g.get()) {
+            let hook = self.sh.gate.lock().unwrap().take();
+            if let Some((entered, go)) = hook {
+                let _ = entered.send(());
+                let _ = go.recv_timeout(Duration::from_secs(10));
+            }
+        }
     }
     fn lookup(&self, ctx: &Context, parent: u64, name: &CStr) -> io::Result<Entry> {
         self.rec("lookup", ctx, &[parent.to_string(), nm(name)]);
@@ -512,6 +532,7 @@ pub struct World {
     /// every mapping ever given to a slot index
     pub slot_hist: BTreeMap<u8, Vec<Option<Map>>>,
     pub unique: u64,
+    pub stash: Stash,
 }
 
 #[derive(Clone, Debug, Default, PartialEq)]
@@ -603,11 +624,57 @@ impl World {
             live: BTreeMap::new(),
             slot_hist: BTreeMap::new(),
             unique: 1,
+            stash: Stash { umount: None, mount: None },
         }
     }
 
     fn take_log(&self) -> Vec<String> {
         std::mem::take(&mut *self.sh.log.lock().unwrap())
+    }
+
+    /// `X:<umount path>:<mount fields>`: UMOUNT on one thread, parked inside the backend's
+    /// destroy(); the MOUNT attempted on a second thread meanwhile; then the umount is released.
+    /// The raw results are stashed; the caller books them with the ordinary `u` and `m` steps
+    /// (sequentially equivalent order: umount, then mount).
+    pub fn run_pair(&mut self, upath: &str, mf: &[&str]) {
+        use std::sync::mpsc::sync_channel;
+        let pino = self.vfs.get_root_pseudofs().path_walk(upath).ok().flatten();
+        let spec = BkSpec { id: mf[2].parse().unwrap_or(0), mans: mf[4].to_string(), ie: mf[5].parse().unwrap_or(0) };
+        let map = parse_map(mf[3]);
+        let bk = self.bk(&spec);
+        let (etx, erx) = sync_channel::<()>(1);
+        let (gtx, grx) = sync_channel::<()>(1);
+        *self.sh.gate.lock().unwrap() = Some((etx, grx));
+        let vfs_a = self.vfs.clone();
+        let up = upath.to_string();
+        let ta = std::thread::spawn(move || {
+            GATED.with(|g| g.set(true));
+            vfs_a.umount(&up).map_err(|e| show_vfs_err(&e))
+        });
+        let _parked = erx.recv_timeout(Duration::from_millis(300)).is_ok();
+        let vfs_b = self.vfs.clone();
+        let mp = mf[1].to_string();
+        let tb = std::thread::spawn(move || {
+            match map {
+                None => vfs_b.mount(bk, &mp),
+                Some(m) => vfs_b.mount_with_id_mapping(bk, &mp, Some(m)),
+            }
+            .map_err(|e| show_vfs_err(&e))
+        });
+        let t0 = std::time::Instant::now();
+        while !tb.is_finished() && t0.elapsed() < Duration::from_millis(120) {
+            std::thread::sleep(Duration::from_millis(1));
+        }
+        let _ = gtx.send(());
+        let ru = ta.join();
+        let rm = tb.join();
+        *self.sh.gate.lock().unwrap() = None;
+        let log = self.take_log();
+        let pre = format!("{}.", spec.id);
+        let (mcalls, ucalls): (Vec<String>, Vec<String>) = log.into_iter().partition(|c| c.starts_with(&pre));
+        // a half that panicked is booked as the step result `panic` (like a panicking plain step)
+        self.stash.umount = Some((pino, ru.unwrap_or_else(|_| Err("panic".to_string())), ucalls));
+        self.stash.mount = Some((rm.unwrap_or_else(|_| Err("panic".to_string())), mcalls));
     }
 
     fn bk(&self, spec: &BkSpec) -> Box<Bk> {
@@ -647,10 +714,16 @@ impl World {
         let path = f[1];
         let spec = BkSpec { id: f[2].parse().unwrap_or(0), mans: f[4].to_string(), ie: f[5].parse().unwrap_or(0) };
         let map = parse_map(f[3]);
-        let r = match map {
-            // `mount` is the public entry point without a mapping
-            None => self.vfs.mount(self.bk(&spec), path),
-            Some(m) => self.vfs.mount_with_id_mapping(self.bk(&spec), path, Some(m)),
+        let r: Result<u8, String> = if let Some((r, calls)) = self.stash.mount.take() {
+            self.sh.log.lock().unwrap().extend(calls);
+            r
+        } else {
+            match map {
+                // `mount` is the public entry point without a mapping
+                None => self.vfs.mount(self.bk(&spec), path),
+                Some(m) => self.vfs.mount_with_id_mapping(self.bk(&spec), path, Some(m)),
+            }
+            .map_err(|e| show_vfs_err(&e))
         };
         match r {
             Ok(idx) => {
@@ -666,14 +739,20 @@ impl World {
                 self.live.insert(idx, Live { idx, path: path.to_string(), spec, own_map: map, pino, root_ino: p[0], root_uid: p[1] as u32, root_gid: p[2] as u32, earlier_maps: earlier });
                 format!("ok{}", idx)
             }
-            Err(e) => show_vfs_err(&e),
+            Err(e) => e,
         }
     }
 
     fn do_umount(&mut self, f: &[&str]) -> String {
         let path = f[1];
-        let pino = self.vfs.get_root_pseudofs().path_walk(path).ok().flatten();
-        match self.vfs.umount(path) {
+        let (pino, r) = if let Some((pino, r, calls)) = self.stash.umount.take() {
+            self.sh.log.lock().unwrap().extend(calls);
+            (pino, r)
+        } else {
+            let pino = self.vfs.get_root_pseudofs().path_walk(path).ok().flatten();
+            (pino, self.vfs.umount(path).map_err(|e| show_vfs_err(&e)))
+        };
+        match r {
             Ok((ino, parent)) => {
                 let old: Vec<u8> = self.live.values().filter(|l| Some(l.pino) == pino).map(|l| l.idx).collect();
                 for o in old {
@@ -681,7 +760,7 @@ impl World {
                 }
                 format!("ok{}.{}", ino, parent)
             }
-            Err(e) => show_vfs_err(&e),
+            Err(e) => e,
         }
     }
 
